@@ -52,19 +52,19 @@ func installCountingUUID() *countingGen {
 // ---------- history cases ----------
 
 type hubOp struct {
-	Op      string    `json:"op"` // pub | sub | disc | stall | unstall | failnext | close | restart | api.list | api.get
-	Label   int       `json:"label,omitempty"`
-	Claims  string    `json:"claims,omitempty"` // JSON of the token claims; "" = no credential
-	Carrier string    `json:"carrier,omitempty"`
-	Topics  []string  `json:"topics,omitempty"`
+	Op      string     `json:"op"` // pub | sub | disc | stall | unstall | failnext | close | restart | api.list | api.get
+	Label   int        `json:"label,omitempty"`
+	Claims  string     `json:"claims,omitempty"` // JSON of the token claims; "" = no credential
+	Carrier string     `json:"carrier,omitempty"`
+	Topics  []string   `json:"topics,omitempty"`
 	Form    url.Values `json:"form,omitempty"`
-	LeidH   string    `json:"leid_header,omitempty"`
-	LeidQ   string    `json:"leid_query,omitempty"`
-	LeidL   []string  `json:"leid_legacy,omitempty"`
-	Repeat  int       `json:"repeat,omitempty"` // pub: number of identical-shape publishes (ids suffixed)
-	Topic   string    `json:"topic,omitempty"`  // api
-	Sub     string    `json:"sub,omitempty"`    // api.get: label of the subscriber ("" = unknown id)
-	INM     string    `json:"if_none_match,omitempty"`
+	LeidH   string     `json:"leid_header,omitempty"`
+	LeidQ   string     `json:"leid_query,omitempty"`
+	LeidL   []string   `json:"leid_legacy,omitempty"`
+	Repeat  int        `json:"repeat,omitempty"` // pub: number of identical-shape publishes (ids suffixed)
+	Topic   string     `json:"topic,omitempty"`  // api
+	Sub     string     `json:"sub,omitempty"`    // api.get: label of the subscriber ("" = unknown id)
+	INM     string     `json:"if_none_match,omitempty"`
 }
 
 type hubCase struct {
@@ -75,10 +75,10 @@ type hubCase struct {
 	// sequence of publishes (id, type, LF-normalised data), one event each.
 	ExactStream bool `json:"exact_stream,omitempty"`
 	// AllPublic: every publish is public, authorised and on a topic every '*' subscriber matches.
-	AllPublic bool `json:"all_public,omitempty"`
-	Cfg  hubCfg  `json:"cfg"`
-	Size uint64  `json:"size"`
-	Ops  []hubOp `json:"ops"`
+	AllPublic bool    `json:"all_public,omitempty"`
+	Cfg       hubCfg  `json:"cfg"`
+	Size      uint64  `json:"size"`
+	Ops       []hubOp `json:"ops"`
 }
 
 type liveConn struct {
@@ -112,20 +112,20 @@ func (lt *leidCheck) replayed() []string {
 }
 
 type hubRun struct {
-	f       *fixture
-	dir     string
-	cs      hubCase
-	conns   []*liveConn
-	reg     *prometheus.Registry
-	metrics *mercure.PrometheusMetrics
-	panics  []string
-	pmu     sync.Mutex
-	replayed map[int]bool // connections that asked for a replay (their expected count differs)
+	f          *fixture
+	dir        string
+	cs         hubCase
+	conns      []*liveConn
+	reg        *prometheus.Registry
+	metrics    *mercure.PrometheusMetrics
+	panics     []string
+	pmu        sync.Mutex
+	replayed   map[int]bool // connections that asked for a replay (their expected count differs)
 	leidChecks []*leidCheck
 	okPubs     int
 	extra      []h.Violation // oracle findings collected while the case runs
-	epoch   int  // restarts so far
-	stopped bool // the current hub has been stopped
+	epoch      int           // restarts so far
+	stopped    bool          // the current hub has been stopped
 }
 
 func (hr *hubRun) recoverPanic(where string) {
@@ -292,6 +292,12 @@ func (hr *hubRun) derefListed(op hubOp, w *fakeRW, now time.Time, cs hubCase) {
 	for _, d := range coll.Subscriptions {
 		if d.Topic == "" {
 			continue
+		}
+		if want := subscriptionURL(d.Topic, d.Subscriber); d.ID != want {
+			hr.extra = append(hr.extra, h.Violation{Key: "C18:listed-id-does-not-identify-its-subscription",
+				What: fmt.Sprintf("the collection lists selector %q of subscriber %q under id %q; its subscription URL is %q", d.Topic, d.Subscriber, d.ID, want), Replay: rp})
+
+			break
 		}
 		req, _, _ := hr.request(hubOp{Claims: claimsJSON("subscribe", []string{"*"}, ""), Carrier: "header"}, http.MethodGet, d.ID, nil, "", now)
 		rw := newRW()
@@ -648,6 +654,15 @@ func runHubCaseRaw(c *h.Ctx, r *h.Report, o *gen.Oracle, cs hubCase, uuidGen *co
 					path += "/" + url.QueryEscape(sid)
 				}
 				req, a, tok := hr.request(op, http.MethodGet, path, nil, "", now)
+				if op.INM == "@last" {
+					op.INM = ""
+					if ts, ok := hr.f.tr.(mercure.TransportSubscribers); ok && !hr.stopped {
+						func() {
+							defer func() { recover() }()
+							op.INM, _, _ = ts.GetSubscribers()
+						}()
+					}
+				}
 				if op.INM != "" {
 					req.Header.Set("If-None-Match", op.INM)
 				}
@@ -655,6 +670,11 @@ func runHubCaseRaw(c *h.Ctx, r *h.Report, o *gen.Oracle, cs hubCase, uuidGen *co
 				w := newRW()
 				hr.f.hub.ServeHTTP(w, req)
 				got := showAPIResp(w)
+				if (op.Claims == "" || strings.Contains(op.Claims, "https://example.com/none")) && w.Status() != 401 && w.Status() != 404 {
+					hr.extra = append(hr.extra, h.Violation{Key: "C18:unauthorised-caller-not-refused",
+						What:   fmt.Sprintf("GET %s with %s and If-None-Match %q was answered %d; a caller without a matching mercure.subscribe selector must get 401", req.URL.RequestURI(), map[bool]string{true: "no token", false: "a token for an unrelated selector"}[op.Claims == ""], op.INM, w.Status()),
+						Replay: map[string]any{"family": "hub", "case": cs}})
+				}
 				if op.Op == "api.list" && w.Status() == 200 {
 					hr.derefListed(op, w, now, cs)
 				}
@@ -757,7 +777,7 @@ func showAPIResp(w *fakeRW) string {
 	}
 	var coll struct {
 		doc
-		Subscriptions []doc `json:"subscriptions"`
+		Subscriptions []doc  `json:"subscriptions"`
 		Type          string `json:"type"`
 	}
 	if err := json.Unmarshal([]byte(w.Body()), &coll); err != nil {
